@@ -278,4 +278,183 @@ pub proof fn lemma_consume(r: Seq<u8>, n: int, m: int, count: nat)
     lemma_scan_step(r, count);
 }
 
+
+// ------------------------------------------------------------------ scans only depend on the bytes they consume
+/// a complete first record is also the first record of every prefix that contains it
+pub proof fn lemma_first_rec_take(a: Seq<u8>, cut: int)
+    requires first_rec(a) is Some, first_rec(a).unwrap() <= cut <= a.len()
+    ensures first_rec(a.take(cut)) == first_rec(a)
+{
+    let l = vlen(a).unwrap();
+    lemma_vlen_bits(a);
+    lemma_vlen_bounds(a);
+    let p = a.take(l);
+    assert forall|j: int| 0 <= j < l - 1 implies p[j] & 0x80 != 0 by { assert(p[j] == a[j]); }
+    assert(p[l - 1] == a[l - 1]);
+    lemma_vlen_scan(p, l);
+    lemma_vlen_prefix(p, a.skip(l));
+    assert(p.add(a.skip(l)) =~= a);
+    let t = a.take(cut);
+    lemma_vlen_prefix(p, t.skip(l));
+    assert(p.add(t.skip(l)) =~= t);
+    assert(t[0] == a[0]);
+}
+
+/// two streams that agree on the bytes of the first k records of one of them scan alike
+pub proof fn lemma_scan_prefix(a: Seq<u8>, b: Seq<u8>, k: nat)
+    requires scan(a, k).1 == k, scan(a, k).0 <= b.len(), b.take(scan(a, k).0) == a.take(scan(a, k).0)
+    ensures scan(b, k) == scan(a, k)
+    decreases k
+{
+    lemma_scan_bounds(a, k);
+    if k > 0 {
+        let total = scan(a, k).0;
+        match first_rec(a) {
+            Some(n) => {
+                lemma_first_rec_bounds(a);
+                let a2 = a.skip(n);
+                let k1 = (k - 1) as nat;
+                lemma_scan_bounds(a2, k1);
+                assert(scan(a2, k1).1 == k1);
+                assert(total == n + scan(a2, k1).0);
+                lemma_first_rec_take(a, total);
+                let pa = a.take(total);
+                assert(b.take(total).add(b.skip(total)) =~= b);
+                lemma_first_rec_prefix(pa, b.skip(total));
+                assert(first_rec(b) == Some(n));
+                let b2 = b.skip(n);
+                assert(b2.take(total - n) =~= b.take(total).skip(n));
+                assert(a2.take(total - n) =~= a.take(total).skip(n));
+                lemma_scan_prefix(a2, b2, k1);
+            },
+            None => { assert(scan(a, k) == (0int, 0nat)); }
+        }
+    }
+}
+
+/// scanning j <= k records of a stream with k complete records consumes a prefix of the k-record scan
+pub proof fn lemma_scan_mono(s: Seq<u8>, j: nat, k: nat)
+    requires j <= k, scan(s, k).1 == k
+    ensures scan(s, j).1 == j, scan(s, j).0 <= scan(s, k).0
+    decreases j
+{
+    lemma_scan_bounds(s, k);
+    if j > 0 {
+        match first_rec(s) {
+            Some(n) => {
+                lemma_first_rec_bounds(s);
+                lemma_scan_bounds(s.skip(n), (k - 1) as nat);
+                lemma_scan_mono(s.skip(n), (j - 1) as nat, (k - 1) as nat);
+            },
+            None => { assert(scan(s, k) == (0int, 0nat)); }
+        }
+    }
+}
+
+/// appending one complete record behind k complete records
+pub proof fn lemma_scan_append(s: Seq<u8>, k: nat, n: int)
+    requires scan(s, k).1 == k, 0 <= scan(s, k).0 <= s.len(), first_rec(s.skip(scan(s, k).0)) == Some(n)
+    ensures scan(s, k + 1) == (scan(s, k).0 + n, k + 1)
+    decreases k
+{
+    lemma_scan_bounds(s, k);
+    if k == 0 {
+        assert(s.skip(0) =~= s);
+        lemma_first_rec_bounds(s);
+        assert(scan(s.skip(n), 0) == (0int, 0nat));
+    } else {
+        match first_rec(s) {
+            Some(m) => {
+                lemma_first_rec_bounds(s);
+                let s2 = s.skip(m);
+                let k1 = (k - 1) as nat;
+                lemma_scan_bounds(s2, k1);
+                assert(s2.skip(scan(s2, k1).0) =~= s.skip(scan(s, k).0));
+                lemma_scan_append(s2, k1, n);
+            },
+            None => { assert(scan(s, k) == (0int, 0nat)); }
+        }
+    }
+}
+
+/// ok_stream only depends on the records: k complete ok records followed by a stream that is ok
+pub proof fn lemma_ok_stream_glue(s: Seq<u8>, k: nat)
+    requires scan(s, k).1 == k, ok_prefixes(s, k), ok_stream(s.skip(scan(s, k).0))
+    ensures ok_stream(s)
+    decreases k
+{
+    lemma_scan_bounds(s, k);
+    if k == 0 { assert(s.skip(0) =~= s); } else {
+        match first_rec(s) {
+            Some(m) => {
+                lemma_first_rec_bounds(s);
+                let s2 = s.skip(m);
+                let k1 = (k - 1) as nat;
+                lemma_scan_bounds(s2, k1);
+                assert(s2.skip(scan(s2, k1).0) =~= s.skip(scan(s, k).0));
+                lemma_ok_stream_glue(s2, k1);
+            },
+            None => { assert(scan(s, k) == (0int, 0nat)); }
+        }
+    }
+}
+/// the first k records have store-sized length prefixes
+pub open spec fn ok_prefixes(s: Seq<u8>, k: nat) -> bool
+    decreases k
+{
+    k == 0 || ((vlen(s) is Some ==> (vlen(s).unwrap() <= 10 && vval(s) < 0x1_0000_0000))
+        && match first_rec(s) { Some(n) => 0 < n <= s.len() ==> ok_prefixes(s.skip(n), (k - 1) as nat), None => true })
+}
+pub proof fn lemma_ok_stream_prefixes(s: Seq<u8>, k: nat)
+    requires ok_stream(s)
+    ensures ok_prefixes(s, k)
+    decreases k
+{
+    if k > 0 {
+        match first_rec(s) {
+            Some(n) => { lemma_first_rec_bounds(s); lemma_ok_stream_prefixes(s.skip(n), (k - 1) as nat); },
+            None => {}
+        }
+    }
+}
+/// ok_prefixes only depends on the bytes of the records
+pub proof fn lemma_ok_prefixes_prefix(a: Seq<u8>, b: Seq<u8>, k: nat)
+    requires scan(a, k).1 == k, ok_prefixes(a, k), scan(a, k).0 <= b.len(), b.take(scan(a, k).0) == a.take(scan(a, k).0)
+    ensures ok_prefixes(b, k)
+    decreases k
+{
+    lemma_scan_bounds(a, k);
+    if k > 0 {
+        let total = scan(a, k).0;
+        match first_rec(a) {
+            Some(n) => {
+                lemma_first_rec_bounds(a);
+                let a2 = a.skip(n);
+                let k1 = (k - 1) as nat;
+                lemma_scan_bounds(a2, k1);
+                lemma_first_rec_take(a, total);
+                let pa = a.take(total);
+                assert(b.take(total).add(b.skip(total)) =~= b);
+                lemma_first_rec_prefix(pa, b.skip(total));
+                lemma_vlen_prefix(pa, b.skip(total));
+                lemma_vlen_prefix(pa, a.skip(total));
+                assert(pa.add(a.skip(total)) =~= a);
+                let b2 = b.skip(n);
+                assert(b2.take(total - n) =~= b.take(total).skip(n));
+                assert(a2.take(total - n) =~= a.take(total).skip(n));
+                lemma_ok_prefixes_prefix(a2, b2, k1);
+            },
+            None => { assert(scan(a, k) == (0int, 0nat)); }
+        }
+    }
+}
+/// a stream of zeros is an ok, terminated, empty stream
+pub proof fn lemma_zero_stream(s: Seq<u8>)
+    requires forall|i: int| 0 <= i < s.len() ==> s[i] == 0u8
+    ensures ok_stream(s), first_rec(s) is None, s.len() > 0 ==> terminated(s)
+{
+    assert(0u8 & 0x80 == 0) by(bit_vector);
+    if s.len() > 0 { assert(s[0] == 0u8); }
+}
+
 } // verus!
